@@ -16,7 +16,7 @@ RULE = (
     "border, on the region corner, outside, on the diagonal, negative birth, ...) alone and 6 pairs; plus diagrams of 300 and 1100 points on the coarse grid (chunked evaluation paths). "
     "Oracle per pixel: weight x mass of the kernel over the pixel's square by 1-D quadrature of the "
     "conditional law / erf products / exact box overlap; pixel squares from the public ranges and "
-    "pixel_size. state = (configuration, diagram); transition = one transform call; non-trivial = "
+    "pixel_size; every image is requested through 4 call styles (alone, n_jobs=1 joblib path, inside a collection with / without n_jobs). state = (configuration, diagram); transition = one transform call; non-trivial = "
     "correlated kernel or a point on/outside the border of the imaged region."
 )
 ASSUMPTIONS = [
@@ -165,17 +165,34 @@ def run_case(case, ctx):
                 ex = {"region": [br, pr], "pixel": px, "kernel": kernel, "weight": weight, "skew": skew, "diagram": D if len(D) <= 4 else "big_diagram(%d)" % len(D)}
                 if len(D) > 4:
                     ctx.nontriv("large_diagram_%d_points" % len(D))
-                if img.shape != ref.shape:
-                    ctx.violation("image-shape", "image shape differs from the resolution (birth pixels x persistence pixels)",
-                                  observed=list(img.shape), expected=list(ref.shape), extra=ex)
+                styles = [("transform(D)", img)]
+                if not case.get("hires"):
+                    # the other documented call styles reach the same pixels: the joblib path (n_jobs given,
+                    # executed in-process for n_jobs=1) and a one-element collection
+                    styles.append(("transform(D, n_jobs=1)", np.asarray(ctx.call(im.transform, A, skew=skew, n_jobs=1))))
+                    if "big" not in case:
+                        r_ = ctx.call(im.transform, [A, A[:1]], skew=skew, n_jobs=1)
+                        styles.append(("transform([D, D[:1]], n_jobs=1)[0]", np.asarray(r_[0]) if len(r_) == 2 else np.zeros((0, 0))))
+                        r_ = ctx.call(im.transform, [A], skew=skew)
+                        styles.append(("transform([D])[0]", np.asarray(r_[0]) if len(r_) == 1 else np.zeros((0, 0))))
+                bad_shape = False
+                for style, img in styles:
+                    ctx.valid()
+                    exs = dict(ex, call=style)
+                    if img.shape != ref.shape:
+                        ctx.violation("image-shape", "image shape differs from the resolution (birth pixels x persistence pixels) [%s]" % style,
+                                      observed=list(img.shape), expected=list(ref.shape), extra=exs)
+                        bad_shape = True
+                        continue
+                    err = np.abs(img - ref)
+                    if not np.all(err <= TOL * wmax):
+                        i, j = np.unravel_index(np.nanargmax(err) if np.any(np.isfinite(err)) else 0, err.shape)
+                        transposed = img.T.shape == ref.shape and np.all(np.abs(img.T - ref) <= TOL * wmax)
+                        ctx.violation("pixel-value" + ("-transposed" if transposed else ""),
+                                      "pixel (birth %d, persistence %d) is %r, weighted kernel mass over that square is %r [%s]" % (i, j, float(img[i, j]), float(ref[i, j]), style),
+                                      observed=img.tolist(), expected=ref.tolist(), extra=exs)
+                if bad_shape:
                     continue
-                err = np.abs(img - ref)
-                if not np.all(err <= TOL * wmax):
-                    i, j = np.unravel_index(np.nanargmax(err) if np.any(np.isfinite(err)) else 0, err.shape)
-                    transposed = img.T.shape == ref.shape and np.all(np.abs(img.T - ref) <= TOL * wmax)
-                    ctx.violation("pixel-value" + ("-transposed" if transposed else ""),
-                                  "pixel (birth %d, persistence %d) is %r, weighted kernel mass over that square is %r" % (i, j, float(img[i, j]), float(ref[i, j])),
-                                  observed=img.tolist(), expected=ref.tolist(), extra=ex)
                 if len(D) == 1:
                     ctx.outcome(np.round(ref, 7).tolist())
                 b, p = bp[0]
